@@ -193,6 +193,10 @@ class Parser:
         self._op_code.
         """
         if action_token is TokenTypes.STAGE:
+            if self._current_token.is_a(TokenTypes.BEGIN):
+                # Only "set" takes a block: "stage" names no light to send
+                # the result to.
+                return self.trigger_error('Nesting not allowed here.')
             if not MatrixParser(self).operand_list():
                 return False
             self._add_instruction(OpCode.COLOR)
